@@ -51,6 +51,10 @@ inline const AttrVal &attr(int id, const char *m) {
   if (it == st().ev->attr.end()) throw Fault(std::string("no_attr:") + std::to_string(id) + "." + m);
   return it->second;
 }
+// a pointer to an object handed around either by pointer or by value (for user C++ code that
+// must work on both kinds of receiver)
+template <class T> inline T *p(T *x) { return x; }
+template <class T> inline T *p(T &x) { return &x; }
 inline double num(int id, const char *m) { return attr(id, m).num; }
 inline int ref(int id, const char *m) { return attr(id, m).ref; }
 
